@@ -85,6 +85,12 @@ func c06Case(c *Ctx) {
 		jobMode = "sge"
 		flags = append(flags, fmt.Sprintf("--maxjobs=%d", 1+c.Plan.Draw(3)), fmt.Sprintf("--jobinterval=%d", []int{0, 100, 2000}[c.Plan.Draw(3)]))
 		fcfg.MaxChunks = 2 + c.Plan.Draw(4)
+		if c.Plan.Draw(2) == 0 {
+			// wide stages: while one chunk fails, siblings still wait for a slot
+			prog = templateChunksProg(c.Plan)
+			fcfg.MaxChunks = 3 + c.Plan.Draw(5)
+			fcfg.Salt = fmt.Sprintf("c06w%d", c.Plan.Draw(1000))
+		}
 		c.Res.Probes["cluster-mode-bases"]++
 	}
 	base := &RunCfg{Prog: prog, FCfg: fcfg, MaxSteps: 80000, Flags: flags, JobMode: jobMode}
@@ -122,8 +128,9 @@ func c06Case(c *Ctx) {
 			}
 		}
 		m := ms[c.Plan.Draw(len(ms))]
-		if jobMode != "" && m.name == "exit-nonzero" {
-			// in cluster mode nobody sees a job's exit status: the job is missed by
+		if jobMode != "" && m.name == "exit-nonzero" && j.JobType != "local" {
+			// in cluster mode nobody sees the exit status of a job the scheduler ran
+			// (preflight and local stages still run under mrp itself): the job is missed by
 			// the queue check after its grace period, which counts as transient
 			// (the scheduler may have lost or pre-empted it)
 			m.class = "transient"
